@@ -522,6 +522,10 @@ def container_eq(I, ctx, a, b):
     if isinstance(ca, SymObj) and isinstance(cb, SymObj):
         if isinstance(a, Ref) and isinstance(b, Ref) and a.cell == b.cell:
             return True
+        kind, f = I.src.class_attr(ca.cls, '__eq__')
+        if kind == 'func':
+            r = I.call_func(ctx, f, [a, b], {})
+            return False if r is NotImplemented else I.truth(r, ctx)
         wa = SymObj(ca.cls, {k: wrap(v, ha, ctx) for k, v in ca.fields.items()}, ca.ident)
         wb = SymObj(cb.cls, {k: wrap(v, hb, ctx) for k, v in cb.fields.items()}, cb.ident)
         return I.obj_eq(wa, wb, ctx)
@@ -1140,6 +1144,17 @@ def m_hash(I, ctx, args, kwargs, node):
     hook = getattr(I, 'hash_hook', None)
     if hook is not None:
         return hook(ctx, args[0])
+    v = args[0]
+    if isinstance(v, (Ref, Snapshot)):
+        v = content(I, ctx, v)[0]
+    import dataclasses as _dc
+    if isinstance(v, SymObj) and _dc.is_dataclass(v.cls) and v.cls.__dataclass_params__.frozen and v.cls.__dataclass_params__.eq:
+        # frozen dataclass: hash of the tuple of compare-fields -- an (uninterpreted) function of those fields
+        fs = [znum(b2i(v.fields[f.name])) for f in _dc.fields(v.cls) if (f.compare if f.hash is None else f.hash)]
+        fn = z3.Function(f'pyhash_{v.cls.__name__}', *([z3.IntSort()] * len(fs)), z3.IntSort())
+        return fn(*fs)
+    if is_concrete(v):
+        return hash(v)
     raise PyvcUnsupported('hash')
 
 
